@@ -70,12 +70,8 @@ func Walk(ctx context.Context, fileSystem fs.FS, prefix, delimiter, marker strin
 
 	// a prefix that points into a skipped directory starts the walk below
 	// it, where the name check of the walk never sees it: nothing matches
-	if root != "." {
-		for _, elem := range strings.Split(root, "/") {
-			if contains(elem, skipdirs) {
-				return WalkResults{}, nil
-			}
-		}
+	if root != "." && contains(strings.Split(root, "/")[0], skipdirs) {
+		return WalkResults{}, nil
 	}
 
 	err := fs.WalkDir(fileSystem, root, func(path string, d fs.DirEntry, err error) error {
@@ -89,7 +85,7 @@ func Walk(ctx context.Context, fileSystem fs.FS, prefix, delimiter, marker strin
 		if path == "." {
 			return nil
 		}
-		if contains(d.Name(), skipdirs) {
+		if contains(path, skipdirs) {
 			return fs.SkipDir
 		}
 
@@ -350,7 +346,7 @@ func WalkVersions(ctx context.Context, fileSystem fs.FS, prefix, delimiter, keyM
 		if path == "." {
 			return nil
 		}
-		if contains(d.Name(), skipdirs) {
+		if contains(path, skipdirs) {
 			return fs.SkipDir
 		}
 
